@@ -10,11 +10,14 @@ use std::{
     time::Duration,
 };
 
+use actix_codec::{Framed, FramedParts};
 use actix_http::{
     body::{BodySize, BodyStream, BoxBody, MessageBody, SizedStream},
-    KeepAlive, Request, Response, StatusCode,
+    h1, ConnectionType, HttpService, KeepAlive, Request, Response, StatusCode,
 };
-use actix_service::fn_service;
+use actix_service::{fn_service, Service as _, ServiceFactory as _};
+use futures_util::SinkExt as _;
+use tokio::io::AsyncWriteExt as _;
 use bytes::Bytes;
 use futures_core::Stream;
 use vh::h1conn::*;
@@ -33,6 +36,20 @@ pub enum EvKind {
     BChunk,
     BEnd,
     BErr,
+    /// flow.upgrade.call((req, framed)): the hand-off
+    UpgCall,
+    /// the upgrade service has written its 101 response and its marker
+    UpgDone,
+}
+
+/// what the upgrade service found in the Framed it was handed
+#[derive(Clone, Debug)]
+pub struct Handoff {
+    pub req: usize,
+    pub write_buf: Vec<u8>,
+    pub read_buf: Vec<u8>,
+    /// bytes the socket had accepted when the upgrade service was called
+    pub written_before: usize,
 }
 
 #[derive(Clone, Debug)]
@@ -50,6 +67,7 @@ pub struct Shared {
     pub calls: usize,
     /// path index of each dispatched request, in dispatch order
     pub started: Vec<usize>,
+    pub handoff: Option<Handoff>,
 }
 
 type Sh = Rc<RefCell<Shared>>;
@@ -195,7 +213,65 @@ impl Future for HandlerFut {
     }
 }
 
+#[derive(Debug)]
+pub struct UpgErr;
+impl std::fmt::Display for UpgErr {
+    fn fmt(&self, f: &mut std::fmt::Formatter<'_>) -> std::fmt::Result {
+        write!(f, "upgrade service error")
+    }
+}
+
+impl From<UpgErr> for Response<BoxBody> {
+    fn from(_: UpgErr) -> Self {
+        Response::internal_server_error().map_into_boxed_body()
+    }
+}
+
+/// hand-polled connection future built here (vh::h1conn::Conn cannot configure an upgrade service)
+pub struct UConn {
+    fut: Pin<Box<dyn Future<Output = Result<(), actix_http::error::DispatchError>>>>,
+    waker: std::task::Waker,
+    finished: Option<ConnPoll>,
+}
+
+impl UConn {
+    pub fn poll(&mut self) -> ConnPoll {
+        if let Some(f) = &self.finished {
+            return f.clone();
+        }
+        let mut cx = Context::from_waker(&self.waker);
+        match self.fut.as_mut().poll(&mut cx) {
+            Poll::Pending => ConnPoll::Pending,
+            Poll::Ready(Ok(())) => {
+                self.finished = Some(ConnPoll::Done);
+                ConnPoll::Done
+            }
+            Poll::Ready(Err(e)) => {
+                let name = format!("{:?}", e);
+                let short = name.split(|c: char| !c.is_alphanumeric()).next().unwrap_or("").to_string();
+                self.finished = Some(ConnPoll::Failed(short));
+                self.finished.clone().unwrap()
+            }
+        }
+    }
+}
+
+pub enum AnyConn {
+    Plain(Conn),
+    Up(UConn),
+}
+
+impl AnyConn {
+    pub fn poll(&mut self) -> ConnPoll {
+        match self {
+            AnyConn::Plain(c) => c.poll(),
+            AnyConn::Up(c) => c.poll(),
+        }
+    }
+}
+
 pub struct ConnRun {
+    pub handoff: Option<Handoff>,
     pub wire: Vec<u8>,
     pub log: Vec<Ev>,
     pub started: Vec<usize>,
@@ -211,15 +287,32 @@ pub enum Sched {
     Bad,
     Tick,
     Flush(usize),
+    /// the upgrade request is decoded (index, hex of what stays in read_buf behind it)
+    Upg(usize, String),
+    /// bytes accepted by the socket after the hand-off
+    After(usize),
 }
 
 impl Sched {
+    /// as an event of the upgrade model (H1/UpgradeSeq.v): a flush is one poll_flush call in
+    /// which the socket accepts k bytes and then blocks
+    pub fn ucoq(&self) -> String {
+        match self {
+            Sched::Arrive(j) => format!("(UEv (WArrive {}))", j),
+            Sched::Bad => "(UEv WBad)".into(),
+            Sched::Tick => "(UEv WTick)".into(),
+            Sched::Flush(k) => format!("(UEv (WFlush [WAccept {}] WPending FReady))", k),
+            Sched::Upg(j, rest) => format!("(UUpg {} (hx \"{}\"))", j, rest),
+            Sched::After(k) => format!("(UAfter {})", k),
+        }
+    }
     pub fn coq(&self) -> String {
         match self {
             Sched::Arrive(j) => format!("(EvArrive {})", j),
             Sched::Bad => "EvBad".into(),
             Sched::Tick => "EvTick".into(),
             Sched::Flush(k) => format!("(EvFlush {})", k),
+            Sched::Upg(..) | Sched::After(_) => unreachable!("upgrade events are printed with ucoq"),
         }
     }
 }
@@ -230,6 +323,11 @@ pub fn request_stream(c: &ConnCase) -> (Vec<u8>, Vec<usize>) {
     for (i, r) in c.reqs.iter().enumerate() {
         bytes.extend_from_slice(&r.bytes(i));
         ends.push(bytes.len());
+    }
+    if let Some(u) = &c.upgrade {
+        bytes.extend_from_slice(&u.req.bytes(c.reqs.len()));
+        ends.push(bytes.len());
+        bytes.extend_from_slice(&unhex(&u.rest));
     }
     if c.bad_tail {
         bytes.extend_from_slice(BAD_REQUEST_LINE);
@@ -243,7 +341,7 @@ pub fn run_conn(c: &ConnCase) -> ConnRun {
     vh::exec::run_local(async {
         tokio::time::pause();
         let io = ScriptIo::new();
-        let sh: Sh = Rc::new(RefCell::new(Shared { log: vec![], io: io.clone(), handlers: c.handlers.clone(), calls: 0, started: vec![] }));
+        let sh: Sh = Rc::new(RefCell::new(Shared { log: vec![], io: io.clone(), handlers: c.handlers.clone(), calls: 0, started: vec![], handoff: None }));
         let cfg = ConnCfg {
             keep_alive: if c.ka { KeepAlive::Timeout(Duration::from_secs(5)) } else { KeepAlive::Disabled },
             client_request_timeout_ms: 0,
@@ -264,7 +362,62 @@ pub fn run_conn(c: &ConnCase) -> ConnRun {
             let pend = sh2.borrow().handlers[idx].pend;
             HandlerFut { sh: sh2.clone(), req: idx, pend_left: pend }
         });
-        let mut conn = Conn::start(cfg, io.clone(), svc).await;
+        let mut conn = match &c.upgrade {
+            None => AnyConn::Plain(Conn::start(cfg, io.clone(), svc).await),
+            Some(u) => {
+                // HttpService::build().upgrade(..): the service takes (Request, Framed<T, h1::Codec>),
+                // looks at what it was handed, answers 101 through the Framed (which flushes the
+                // write buffer it inherited first), writes a raw marker and finishes
+                let sh3 = sh.clone();
+                let marker = unhex(&u.marker);
+                let upg = fn_service(move |(req, framed): (Request, Framed<ScriptIo, h1::Codec>)| {
+                    let sh = sh3.clone();
+                    let marker = marker.clone();
+                    async move {
+                        let idx: usize = req.path().trim_start_matches('/').parse().unwrap_or(usize::MAX);
+                        let parts = framed.into_parts();
+                        {
+                            let mut s = sh.borrow_mut();
+                            let written_before = s.io.0.borrow().total_written;
+                            s.handoff = Some(Handoff { req: idx, write_buf: parts.write_buf.to_vec(), read_buf: parts.read_buf.to_vec(), written_before });
+                        }
+                        log(&sh, EvKind::UpgCall, idx);
+                        let mut p2 = FramedParts::with_read_buf(parts.io, parts.codec, parts.read_buf);
+                        p2.write_buf = parts.write_buf;
+                        let mut framed = Framed::from_parts(p2);
+                        let mut res = Response::new(StatusCode::SWITCHING_PROTOCOLS);
+                        res.head_mut().set_connection_type(ConnectionType::Upgrade);
+                        framed.send(h1::Message::Item((res.drop_body(), BodySize::None))).await.map_err(|_| UpgErr)?;
+                        let mut parts = framed.into_parts();
+                        parts.io.write_all(&marker).await.map_err(|_| UpgErr)?;
+                        log(&sh, EvKind::UpgDone, idx);
+                        Ok::<(), UpgErr>(())
+                    }
+                });
+                let mut b = HttpService::<ScriptIo, _, _>::build()
+                    .keep_alive(cfg.keep_alive)
+                    .client_request_timeout(Duration::from_millis(cfg.client_request_timeout_ms))
+                    .client_disconnect_timeout(Duration::from_millis(cfg.client_disconnect_timeout_ms))
+                    .h1_allow_half_closed(cfg.half_closed);
+                if let Some(n) = cfg.write_buffer_size {
+                    b = b.h1_write_buffer_size(n);
+                }
+                let factory = b.upgrade(upg).h1(svc);
+                let service = factory.new_service(()).await.expect("service");
+                tokio::task::yield_now().await;
+                let fut = service.call((io.clone(), None));
+                let (_wake, waker) = vh::exec::CountWake::pair();
+                AnyConn::Up(UConn {
+                    fut: Box::pin(async move {
+                        let r = fut.await;
+                        drop(service);
+                        r
+                    }),
+                    waker,
+                    finished: None,
+                })
+            }
+        };
         io.script_writes(
             &c.writes
                 .iter()
@@ -323,9 +476,10 @@ pub fn run_conn(c: &ConnCase) -> ConnRun {
         let total_read = io.0.borrow().total_read;
         let log = sh.borrow().log.clone();
         let started = sh.borrow().started.clone();
+        let handoff = sh.borrow().handoff.clone();
         let sched = derive_schedule(c, &ends, &log, total_read, wire.len());
         drop(conn);
-        ConnRun { wire, log, started, result, total_read, sched, stalled }
+        ConnRun { handoff, wire, log, started, result, total_read, sched, stalled }
     })
 }
 
@@ -335,17 +489,26 @@ pub fn run_conn(c: &ConnCase) -> ConnRun {
 /// bytes the socket accepted between two logged events.
 pub fn derive_schedule(c: &ConnCase, ends: &[usize], log: &[Ev], final_read: usize, final_written: usize) -> Vec<Sched> {
     let n = c.reqs.len();
+    let upg_rest = c.upgrade.as_ref().map(|u| u.rest.clone());
     let mut out = vec![];
     let mut next = 0usize; // next request not yet arrived
     let mut bad_done = false;
     let mut written = 0usize;
     let mut after_call = false;
+    let mut handed = false;
     // the parse error is raised as soon as "BAD\r" has been read (a space is expected after the method)
     let stream_len = ends.last().copied().unwrap_or(0) + if c.bad_tail { 4 } else { 0 };
     let arrivals = |out: &mut Vec<Sched>, next: &mut usize, bad_done: &mut bool, read: usize| {
         while *next < n && ends[*next] <= read {
             out.push(Sched::Arrive(*next));
             *next += 1;
+        }
+        if let Some(rest) = &upg_rest {
+            if *next == n && ends[n] <= read {
+                out.push(Sched::Upg(n, rest.clone()));
+                *next += 1;
+            }
+            return;
         }
         if c.bad_tail && !*bad_done && *next == n && read >= stream_len {
             out.push(Sched::Bad);
@@ -354,7 +517,7 @@ pub fn derive_schedule(c: &ConnCase, ends: &[usize], log: &[Ev], final_read: usi
     };
     for e in log {
         if e.total_written > written {
-            out.push(Sched::Flush(e.total_written - written));
+            out.push(if handed { Sched::After(e.total_written - written) } else { Sched::Flush(e.total_written - written) });
             written = e.total_written;
         }
         match e.kind {
@@ -365,6 +528,12 @@ pub fn derive_schedule(c: &ConnCase, ends: &[usize], log: &[Ev], final_read: usi
                 }
                 after_call = true;
             }
+            EvKind::UpgCall => {
+                // handed over in the poll that decoded it, or after waiting in the queue
+                arrivals(&mut out, &mut next, &mut bad_done, e.total_read);
+                handed = true;
+            }
+            EvKind::UpgDone => {}
             _ => {
                 if !after_call {
                     arrivals(&mut out, &mut next, &mut bad_done, e.total_read);
@@ -376,7 +545,7 @@ pub fn derive_schedule(c: &ConnCase, ends: &[usize], log: &[Ev], final_read: usi
     }
     arrivals(&mut out, &mut next, &mut bad_done, final_read);
     if final_written > written {
-        out.push(Sched::Flush(final_written - written));
+        out.push(if handed { Sched::After(final_written - written) } else { Sched::Flush(final_written - written) });
     }
     out
 }
@@ -385,7 +554,7 @@ pub fn derive_schedule(c: &ConnCase, ends: &[usize], log: &[Ev], final_read: usi
 /// ready) the most recently decoded request is a later one with a different context
 pub fn f12_window(c: &ConnCase, log: &[Ev], sched: &[Sched]) -> bool {
     // replay arrivals against ticks: the k-th Tick corresponds to the k-th non-Call log event
-    let polls: Vec<&Ev> = log.iter().filter(|e| e.kind != EvKind::Call).collect();
+    let polls: Vec<&Ev> = log.iter().filter(|e| !matches!(e.kind, EvKind::Call | EvKind::UpgCall | EvKind::UpgDone)).collect();
     let mut last_arrived: Option<usize> = None;
     let mut k = 0;
     let mut any_bad = false;
@@ -414,7 +583,7 @@ pub fn f12_window(c: &ConnCase, log: &[Ev], sched: &[Sched]) -> bool {
                     }
                 }
             }
-            Sched::Flush(_) => {}
+            Sched::Flush(_) | Sched::Upg(..) | Sched::After(_) => {}
         }
     }
     let _ = any_bad;
@@ -431,6 +600,119 @@ pub fn v_conn(run: &ConnRun) -> V {
         _ => 0,
     };
     V::T("conn", vec![V::L(units(&run.wire)), V::L(run.started.iter().map(|&i| V::us(i)).collect()), V::n(res)])
+}
+
+/// observables of a case with an upgrade service: the wire, the dispatched requests, the result
+/// and what the upgrade service was handed
+pub fn v_upg(run: &ConnRun) -> V {
+    let res = match &run.result {
+        ConnPoll::Failed(k) if k == "Body" => 1u32,
+        ConnPoll::Failed(k) if k == "Io" => 2,
+        ConnPoll::Failed(_) => 3,
+        _ => 0,
+    };
+    let ho = match &run.handoff {
+        None => V::T("noho", vec![]),
+        Some(h) => V::T("ho", vec![V::us(h.req), V::us(h.write_buf.len()), V::h(&h.read_buf), V::us(h.written_before)]),
+    };
+    V::T("upg", vec![V::L(units(&run.wire)), V::L(run.started.iter().map(|&i| V::us(i)).collect()), V::n(res), ho])
+}
+
+/// Oracle clause for the hand-off (independent of the model): every request in front of the
+/// upgrade request is answered exactly once, in order, completely, before any byte the upgrade
+/// service writes; nothing is dropped at the hand-off.
+pub fn oracle_upg(c: &ConnCase, run: &ConnRun) -> Result<(), String> {
+    let u = c.upgrade.as_ref().expect("upgrade case");
+    let k = c.reqs.len();
+    let Some(h) = &run.handoff else {
+        // never handed over (connection failed, closed or blocked before): the ordinary clauses
+        return oracle_conn(c, run);
+    };
+    if run.stalled {
+        return Err("connection did not quiesce".into());
+    }
+    if h.req != k {
+        return Err(format!("the upgrade service was called with request {} but the upgrade request is request {k}", h.req));
+    }
+    if run.started.len() != k || run.started.iter().enumerate().any(|(i, &j)| i != j) {
+        return Err(format!("upgrade hand-off although the requests in front were dispatched as {:?} (expected 0..{k})", run.started));
+    }
+    let hb = h.written_before.min(run.wire.len());
+    // what the client has received or will receive from the dispatcher: accepted before ++ handed write_buf
+    let mut s: Vec<u8> = run.wire[..hb].to_vec();
+    s.extend_from_slice(&h.write_buf);
+    // framing / order / body clauses of every response in it
+    let pseudo = ConnRun {
+        handoff: None,
+        wire: s.clone(),
+        log: run.log.clone(),
+        started: run.started.clone(),
+        result: ConnPoll::Pending,
+        total_read: run.total_read,
+        sched: vec![],
+        stalled: false,
+    };
+    oracle_conn(c, &pseudo).map_err(|m| format!("at the hand-off: {m}"))?;
+    // completeness: exactly k complete responses, nothing else
+    let mut pos = 0usize;
+    for i in 0..k {
+        if s[pos..].starts_with(b"HTTP/1.1 100 Continue\r\n\r\n") {
+            pos += 25;
+        }
+        match reader::read_response(&s[pos..], c.reqs[i].head(), false) {
+            ReadOut::Complete { consumed, .. } => pos += consumed,
+            _ => {
+                return Err(format!(
+                    "request {i} in front of the upgrade request has no complete response at the hand-off: socket had accepted {hb} bytes, the upgrade service was handed a write buffer of {} bytes, together x{}",
+                    h.write_buf.len(),
+                    hex(&s[pos..s.len().min(pos + 48)])
+                ))
+            }
+        }
+    }
+    if pos != s.len() {
+        return Err(format!("{} stray bytes behind the {k} responses at the hand-off", s.len() - pos));
+    }
+    // the wire: the dispatcher's bytes first, in full, then only the upgrade service's
+    let tail = &run.wire[hb..];
+    let m = tail.len().min(h.write_buf.len());
+    if tail[..m] != h.write_buf[..m] {
+        return Err("bytes written after the hand-off are not the handed-over write buffer".into());
+    }
+    if tail.len() < h.write_buf.len() {
+        if run.log.iter().any(|e| e.kind == EvKind::UpgDone) {
+            return Err("upgrade service finished but the handed-over responses were not written".into());
+        }
+        return Ok(());
+    }
+    let ours = &tail[h.write_buf.len()..];
+    let marker = unhex(&u.marker);
+    let done = run.log.iter().any(|e| e.kind == EvKind::UpgDone);
+    match ours.windows(4).position(|w| w == b"\r\n\r\n") {
+        Some(e) => {
+            let ver = if u.req.ver == 10 { "HTTP/1.0 101 " } else { "HTTP/1.1 101 " };
+            if !ours.starts_with(ver.as_bytes()) {
+                return Err(format!("upgrade response does not start with {ver:?}: x{}", hex(&ours[..ours.len().min(24)])));
+            }
+            let after = &ours[e + 4..];
+            if !marker.starts_with(after) || (done && after != &marker[..]) {
+                return Err(format!("after the 101 head the client reads x{} but the upgrade service wrote x{}", hex(after), u.marker));
+            }
+        }
+        None => {
+            if done {
+                return Err("upgrade service finished but its response is not on the wire".into());
+            }
+        }
+    }
+    // what the dispatcher had read beyond the upgrade request (the rest is still on the socket)
+    let (stream, ends) = request_stream(c);
+    let from = ends[k].min(stream.len());
+    let to = run.total_read.clamp(from, stream.len());
+    if h.read_buf != stream[from..to] {
+        return Err(format!("read buffer handed to the upgrade service is x{} but the dispatcher had read x{} behind the upgrade request", hex(&h.read_buf), hex(&stream[from..to])));
+    }
+    Ok(())
 }
 
 /// Property oracle on the wire (independent of the model): count, order, per-response framing,
